@@ -208,6 +208,24 @@ def find(name: str) -> str:
     raise KeyError(name)
 
 
+# closures from one factory share __module__ and __qualname__ but are different objects
+# with different behaviour (enabled by C14 only: local functions cannot be pickled)
+CLOSURES_ENABLED = False
+
+
+def _make_phsp(k: int):
+    def phsp(s, m1, m2):
+        from ampform.dynamics.phasespace import PhaseSpaceFactor, PhaseSpaceFactorAbs  # noqa: PLC0415
+
+        return (PhaseSpaceFactor if k == 0 else PhaseSpaceFactorAbs)(s, m1, m2) * (k + 1)
+
+    phsp._vp_key = k  # noqa: SLF001
+    return phsp
+
+
+_CLOSURES = {k: _make_phsp(k) for k in (0, 1)}
+
+
 def phsp_candidates() -> list:
     """Admissible values of a `phsp_factor` attribute: every registry class that is
     called as f(s, m1, m2) and every module-level function with that signature."""
@@ -274,6 +292,8 @@ def build(desc):
         return None
     if tag == "str":
         return str(desc[1])
+    if tag == "closure":
+        return _CLOSURES[int(desc[1])]
     if tag == "obj":
         obj = importlib.import_module(desc[1])
         for part in desc[2].split("."):
@@ -331,6 +351,8 @@ def describe(desc) -> str:
         return "None"
     if tag == "obj":
         return desc[2]
+    if tag == "closure":
+        return f"closure#{desc[1]}"
     return str(desc)
 
 
@@ -534,7 +556,8 @@ def alphabet(field: FieldInfo, index: int, tier: str) -> list:
                 out.append(d)
         return out
     if s == "attr:phsp":
-        return [*phsp_candidates(), ["none"]]
+        extra = [["closure", 0], ["closure", 1]] if CLOSURES_ENABLED else []
+        return [*phsp_candidates(), ["none"], *extra]
     if s == "attr:name":
         return [["none"], ["str", "custom"], ["str", "other"]]
     return [["none"]]
@@ -743,6 +766,8 @@ def attr_key(value):
         return ["none"]
     if isinstance(value, str):
         return ["str", value]
+    if inspect.isfunction(value) and hasattr(value, "_vp_key"):
+        return ["closure", value._vp_key]  # noqa: SLF001
     if inspect.isclass(value) or inspect.isfunction(value):
         return ["obj", value.__module__, value.__qualname__]
     return ["repr", repr(value)]
